@@ -168,14 +168,28 @@ def replay(scn):
         kinds = [kind] * nd
         codec = A.LabelCodec(offset=off)
         kind = kind + ("@%d" % off if off else "")
-        for si, sp in enumerate(_spellings(i) + (["zero:" + _spellings(i)[0]] if vi == 0 and i["fam"] in ("forms", "dtypes", "mask") else [])):
+        extra_sp = (["zero:" + _spellings(i)[0]] if vi == 0 and i["fam"] in ("forms", "dtypes", "mask") else [])
+        if vi == 0 and i["rhs"]["shape"] and i["fam"] in ("forms", "points"):
+            extra_sp.append("darhs:" + _spellings(i)[0])          # the right-hand side given as a DimArray (same shape, singleton axes included)
+        if vi == 0 and i["cast"] and a_abs["dtype"] == "i" and i["rhs"]["kind"] == "f":
+            extra_sp.append("f32:" + _spellings(i)[0])            # a float32 right-hand side into integers beyond 2**24: only the dtype kind may change
+        for si, sp in enumerate(_spellings(i) + extra_sp):
             zero = sp.startswith("zero:")        # falsy assigned values (0, 0.0, False, '')
-            if zero:
-                sp = sp[5:]
+            darhs = sp.startswith("darhs:")
+            f32 = sp.startswith("f32:")
+            if zero or darhs or f32:
+                sp = sp.split(":", 1)[1]
             tup = index_tuple(i["idxs"], kinds, codec, i["mode"], (si + vi) % 2) if i["fam"] not in ("mask",) else None
             rhs = _conc_rhs(i["rhs"], zero)
+            if darhs:
+                rhs = A.DimArray(rhs)
+            if f32:
+                rhs = np.float32(rhs) if np.ndim(rhs) == 0 else np.asarray(rhs, dtype=np.float32)
             rhs_before = repr(rhs)
             a = A.gamma(a_abs, codec, kinds)
+            BIG = 2 ** 24 if f32 else 0
+            if f32:
+                a.values[...] += BIG
             before = A.snapshot(a)
             calls += 1
             try:
@@ -216,8 +230,8 @@ def replay(scn):
                     except A.Unprojectable as ex:
                         what = "result not projectable: %s" % ex
                 if what is None:
-                    expv = [(ZERO[i["rhs"]["kind"]] if zero else A.cell_enc(c, i["rhs"]["kind"])) if c > 900 else A.cell_enc(c, a_abs["dtype"]) for c in r["val"]["cells"]]
-                    actv = res.values.ravel().tolist()
+                    expv = [(ZERO[i["rhs"]["kind"]] if zero else A.cell_enc(c, i["rhs"]["kind"])) if c > 900 else (A.cell_enc(c, a_abs["dtype"]) + BIG if BIG else A.cell_enc(c, a_abs["dtype"])) for c in r["val"]["cells"]]
+                    actv = np.ascontiguousarray(res.values).ravel().tolist()
                     if len(expv) != len(actv) or not all(_eq(x, y) for x, y in zip(expv, actv)):
                         what = "cells: expected %s got %s" % (expv, actv)
                 if what is None and exp["readback"]["ok"] and i["fam"] == "forms":
@@ -239,7 +253,8 @@ def replay(scn):
                 except Exception as ex:  # noqa
                     what = "pointwise read-back raised %s: %s" % (type(ex).__name__, str(ex)[:200])
             if what:
-                viol.append(dict(what=what, sig=signature(scn, sp + ("/zero" if zero else ""), kind), variant="kind=%s spelling=%s zero=%s" % (kind, sp, zero)))
+                viol.append(dict(what=what, sig=signature(scn, sp + ("/zero" if zero else "") + ("/darhs" if darhs else "") + ("/f32" if f32 else ""), kind),
+                                 variant="kind=%s spelling=%s zero=%s" % (kind, sp, zero)))
     return dict(violations=viol, calls=calls)
 
 
